@@ -42,6 +42,20 @@ for inherit in value.types.inherits:
     if inherit_symbol in parameter_types:
         return method.returns(inherit_symbol)
 return None"""
+# the same with proposed/C03-operator-operand-indirect-subclass.diff applied: ALL ancestors of the operand's class are compared
+TRY_OPERATION_ANCESTORS = TRY_OPERATION.replace("""for inherit in value.types.inherits:
+    inherit_symbol = self.reflections.resolve(inherit)
+    if inherit_symbol in parameter_types:
+        return method.returns(inherit_symbol)""", """for inherit_symbol in self._ancestors(value.types):
+    if inherit_symbol in parameter_types:
+        return method.returns(inherit_symbol)""")
+ANCESTORS = """ancestors: list[IReflection] = []
+for inherit in types.inherits:
+    inherit_symbol = self.reflections.resolve(inherit)
+    ancestors.append(inherit_symbol)
+    if isinstance(inherit_symbol.types, defs.Class):
+        ancestors.extend(self._ancestors(inherit_symbol.types))
+return ancestors"""
 EACH_BINARY_OPERATOR = """node_of_elements = node.elements
 operator_indexs = range(1, len(node_of_elements), 2)
 right_indexs = range(2, len(node_of_elements), 2)
@@ -121,8 +135,12 @@ def collect() -> dict[str, Any]:
 	if select is None:
 		raise TranslateError('try_operation: the test that skips the parameter check was not recognised')
 	got = body_text(to).replace(hole, '@SELECT@', 1)
-	if got != TRY_OPERATION:
-		raise TranslateError('try_operation has another shape than the modelled one (Model/Infer.lean tryOp, Model/InferOps.lean tryOpUser):\n' + got)
+	if got == TRY_OPERATION:
+		direct = True
+	elif got == TRY_OPERATION_ANCESTORS and body_text(method_of(traits, 'OperationTrait', '_ancestors')) == ANCESTORS:
+		direct = False     # the operand's whole ancestry, nearest first (depth-first, left to right)
+	else:
+		raise TranslateError('try_operation has another shape than the modelled ones (Model/Infer.lean tryOp, Model/InferOps.lean tryOpUser):\n' + got)
 	# each_binary_operator: the whole body
 	ebo = method_of(refl, 'ProceduralResolver', 'each_binary_operator')
 	if body_text(ebo) != EACH_BINARY_OPERATOR:
@@ -150,7 +168,7 @@ def collect() -> dict[str, Any]:
 	it = attr_indexes(method_of(traits, 'IteratorTrait', 'iterates'))
 	if len(it) != 1:
 		raise TranslateError(f'IteratorTrait.iterates: expected one constant index of attrs, found {it}')
-	return {'arith': arith, 'select': select, 'handlers': handlers, 'iterates': it[0], 'names': names}
+	return {'arith': arith, 'select': select, 'handlers': handlers, 'iterates': it[0], 'names': names, 'direct': direct}
 
 
 def render(t: dict[str, Any]) -> str:
@@ -172,8 +190,9 @@ def render(t: dict[str, Any]) -> str:
 		'/-- `try_operation`: the further operators that check their parameter (`operator.tokens not in [...]`) -/',
 		f"def selectTokens : List Tranp.Str := [{', '.join(lstr(x) for x in t['select'])}]",
 		'',
-		'/-- `try_operation` compares the operand\'s class and its DIRECT bases (`for inherit in value.types.inherits`) with the parameter -/',
-		'def operandBasesDirect : Bool := true',
+		'/-- `try_operation` compares the operand\'s class and — true: its DIRECT bases (`for inherit in value.types.inherits`), false: ALL its',
+		'    ancestors, nearest first (`for inherit_symbol in self._ancestors(value.types)`) — with the parameter -/',
+		f"def operandBasesDirect : Bool := {'true' if t['direct'] else 'false'}",
 		'',
 		'/-- `each_binary_operator`: `left.try_operation(op, right) or right.try_operation(op, left)` -/',
 		'def receiverFirst : Bool := true',
@@ -207,5 +226,6 @@ def generate() -> list[dict[str, Any]]:
 		'entries': len(t['arith']) + len(t['select']) + sum(len(ix) for _, ix in t['handlers']) + 3 + len(t['names']),
 		'handlers': {h: ix for h, ix in t['handlers']},
 		'handler_names': len(t['names']),
+		'operand_bases_direct': t['direct'],
 		'changed': changed,
 	}]
